@@ -63,7 +63,8 @@ func (m *Msg) String() string {
 	}
 	d := hex.EncodeToString(m.Data)
 	if len(d) > 24 {
-		d = d[:24] + fmt.Sprintf("..(%dB)", len(m.Data))
+		// the event log (and thus the event hash) covers all bytes through this digest
+		d = d[:24] + fmt.Sprintf("..(%dB,#%016x)", len(m.Data), engine.HashStrings(d))
 	}
 	return fmt.Sprintf("#%d %s %d->%s r%d %s [%s] %s", m.ID, ch, m.From, to, m.Round, m.Kind, m.Label, d)
 }
